@@ -92,22 +92,29 @@ def run(ck):
     import json, os
     tvs = []
     tvsets = [(p_, 8, 1) for p_ in prms] + [((8.0, 128, 1, "0.49", "m:200"), 8, 1), ((3.0, 64, 16, "2.75", "m:53"), 16, 2)]
-    for prm, inb, depth in tvsets:
+    # word-precision rounding: the number of index words kept is ceil(required bits / word size); consecutive lambdas walk the required
+    # precision through every residue modulo the word size, for both index widths (a table that keeps too few bits exceeds its bound)
+    tvsets += [((3.0, lam, 1, "0.3", "d"), inb, 1) for lam in range(40, 56) for inb in (8, 16)]
+    import math
+    def tv_one(item):
+        prm, inb, depth = item
         hd = gc.head(inb, depth, prm)
         r, o, e = gc.run_lines(exe, ["g %s 0 T -" % hd])[0]
-        if r != 0 or not o: continue
+        if r != 0 or not o: return None
         d0 = gc.parse(o)
         req = {"sigma": repr(prm[0]), "center": prm[3], "P": d0["wp"] * inb, "vmin": d0["vmin"], "barriers": d0["barriers"]}
         if prm[4].startswith("m:"): req["center_prec"] = int(prm[4][2:])
         rc, out, err = vf.run_io([os.path.join(vf.ROOT, "tools/gauss_tv.py")], json.dumps(req), timeout=600)
-        if rc != 0 or not out.strip():
-            tvs.append({"params": hd, "error": err[-200:]}); continue
-        import math
+        if rc != 0 or not out.strip(): return {"params": hd, "error": err[-200:]}
         lg = float(out.strip()) if out.strip() != "-inf" else -1e9
-        bound = -prm[1] - math.log2(prm[2])
-        tvs.append({"params": hd, "log2_tv": lg, "bound": bound})
-        if lg > bound:
-            fails.append(("statistical distance (numeric evaluation at >= 1200 bits of the dumped table)", "g %s" % hd, "log2 TV = %.2f exceeds the advertised -lambda - log2(m) = %.2f" % (lg, bound)))
+        return {"params": hd, "log2_tv": lg, "bound": -prm[1] - math.log2(prm[2]), "kept_bits": d0["wp"] * inb}
+    from concurrent.futures import ThreadPoolExecutor as _TPE
+    with _TPE(vf.NCPU) as ex: tvres = list(ex.map(tv_one, tvsets))
+    for t_ in tvres:
+        if t_ is None: continue
+        tvs.append(t_)
+        if "log2_tv" in t_ and t_["log2_tv"] > t_["bound"]:
+            fails.append(("statistical distance (numeric evaluation at >= 1200 bits of the dumped table)", "g %s" % t_["params"], "log2 TV = %.2f exceeds the advertised -lambda - log2(m) = %.2f (the table keeps %d bits)" % (t_["log2_tv"], t_["bound"], t_["kept_bits"])))
     ck.cov["numeric_tv"] = tvs
     # ---- machine-checked certificates: TV(table dumped on this run, D_{Z,sigma,c}) <= 2^-lambda/m, proved by Interval
     import re
